@@ -280,7 +280,8 @@ def standin_pauli_sums(tier, seed):
                 bad(f"PauliSum.with_qubits raised {type(ex).__name__}", terms=terms, new_qubits=new)
                 continue
             m = dict(zip(own, new))
-            want_terms = [(c, {m[q]: p for q, p in d.items()}) for c, d in terms]
+            # strings on a qubit that is no longer among the sum's qubits have cancelled exactly
+            want_terms = [(c, {m[q]: p for q, p in d.items()}) for c, d in terms if all(q in m for q in d)]
             order = sorted(set(new))
             if not np.allclose(r.matrix(order), _sum_matrix(want_terms, order), atol=1e-9):
                 bad("PauliSum.with_qubits does not move every term to the positionally corresponding qubit", terms=terms, old_qubits=own, new_qubits=new)
